@@ -29,7 +29,8 @@ ASSUMPTIONS = [
 
 ATOMS_A = ["a", "b", "f(x, 2)"]
 ATOMS_B = ["a", "b", "c", "f(x)", "f(x, 2)"]
-ATOMS_C = ["f(x)", "f(z)", "f(h(x))", "f(x, 2)", "f(x, k=2)", "f(x, k=3)", "f(x + 1)", "f(-x)"]
+ATOMS_Q = ["a", "b", "`a:b`", "f(x)", "`f(x)`"]  # variables whose names spell another term of the same formula
+ATOMS_C = ["f(x)", "f(z)", "f(h(x))", "f(x, 2)", "f(x, k=2)", "f(x, k=3)", "f(x + 1)", "f(-x)", "f(x, k=2, j=1)", "f(x, j=1, k=2)"]
 OPS = ["+", "-", ":", "*", "/"]
 
 
@@ -324,7 +325,7 @@ def tree_strategy(atoms, max_leaves):
 
 
 def _random_case(max_leaves):
-    atoms = st.sampled_from([ATOMS_A, ATOMS_B, ATOMS_C, ["a", "b", "c", "d", "e"]])
+    atoms = st.sampled_from([ATOMS_A, ATOMS_B, ATOMS_C, ATOMS_Q, ["a", "b", "c", "d", "e"]])
 
     @st.composite
     def build(draw):
@@ -370,7 +371,8 @@ def run(ctx):
         jobs += [("A", ATOMS_A, 3, k, ns) for k in range(ns)]
         jobs += [("C", ATOMS_C, n, 0, 1) for n in (0, 1)]
         jobs += [("C", ATOMS_C, 2, k, ns) for k in range(ns)]
-        ctx.exhaustive["trees<=2 over 5 atoms, trees<=3 over 3 atoms, trees<=2 over 8 call atoms"] = {"complete": True}
+        jobs += [("Q", ATOMS_Q, n, 0, 1) for n in (0, 1)] + [("Q", ATOMS_Q, 2, k, ns) for k in range(ns)]
+        ctx.exhaustive["trees<=2 over 5 atoms, trees<=3 over 3 atoms, trees<=2 over 10 call atoms, trees<=2 over back-quoted look-alikes"] = {"complete": True}
     else:
         for n in (0, 1, 2):
             jobs += [("B", ATOMS_B, n, 0, 1)]
@@ -378,7 +380,8 @@ def run(ctx):
         jobs += [("C", ATOMS_C, n, 0, 1) for n in (0, 1)]
         jobs += [("C", ATOMS_C, 2, k, ns) for k in range(ns)]
         jobs += [("C3", ATOMS_C[2:6], 3, k, ns * 2) for k in range(ns * 2)]
-        ctx.exhaustive["trees<=3 over 5 atoms, trees<=2 over 8 call atoms, trees<=3 over 4 call atoms"] = {"complete": True}
+        jobs += [("Q", ATOMS_Q, n, 0, 1) for n in (0, 1)] + [("Q", ATOMS_Q, 2, k, ns) for k in range(ns)]
+        ctx.exhaustive["trees<=3 over 5 atoms, trees<=2 over 10 call atoms, trees<=3 over 4 call atoms"] = {"complete": True}
     ctx.parallel(_exh_worker, jobs)
     ctx.parallel(_placement_worker, [(k, ns) for k in range(ns)])
     ctx.exhaustive["intercept-literal and group-item placements"] = {"complete": True}
